@@ -2578,10 +2578,6 @@ impl Server {
         // Extract key and value
         let key = match &parts[1] {
             RespFrame::BulkString(Some(bytes)) => {
-                // Redis compliance: Empty string keys are not allowed
-                if bytes.is_empty() {
-                    return Ok(RespFrame::error("ERR invalid key: empty string keys are not allowed"));
-                }
                 bytes.as_ref().clone()
             }
             _ => return Ok(RespFrame::error("ERR invalid key format")),
@@ -2711,10 +2707,6 @@ impl Server {
         
         let key = match &parts[1] {
             RespFrame::BulkString(Some(bytes)) => {
-                // Redis compliance: Empty string keys are not allowed
-                if bytes.is_empty() {
-                    return Ok(RespFrame::error("ERR invalid key: empty string keys are not allowed"));
-                }
                 bytes.as_ref()
             }
             _ => return Ok(RespFrame::error("ERR invalid key format")),
@@ -2745,10 +2737,6 @@ impl Server {
         
         let key = match &parts[1] {
             RespFrame::BulkString(Some(bytes)) => {
-                // Redis compliance: Empty string keys are not allowed
-                if bytes.is_empty() {
-                    return Ok(RespFrame::error("ERR invalid key: empty string keys are not allowed"));
-                }
                 bytes.as_ref().clone()
             }
             _ => return Ok(RespFrame::error("ERR invalid key format")),
@@ -2785,10 +2773,6 @@ impl Server {
         
         let key = match &parts[1] {
             RespFrame::BulkString(Some(bytes)) => {
-                // Redis compliance: Empty string keys are not allowed
-                if bytes.is_empty() {
-                    return Ok(RespFrame::error("ERR invalid key: empty string keys are not allowed"));
-                }
                 bytes.as_ref().clone()
             }
             _ => return Ok(RespFrame::error("ERR invalid key format")),
